@@ -7,6 +7,9 @@ from .interp import Coro, CtxMgr
 from . import builtins_ as B
 
 
+ENV_FIELDS = ("supply", "demand", "utilisation", "allocation")
+
+
 def trio_sleep(I, args, kwargs):
     """trio.sleep(d): returns after exactly d of the run's clock (event `sleep(d)`, ghost clock += d) or raises trio.Cancelled"""
     d = args[0]
@@ -15,6 +18,10 @@ def trio_sleep(I, args, kwargs):
         ctx = I.ctx
         sv = I.num_operand(d)
         ctx.emit("sleep", sv)
+        # while the task sleeps the environment moves: the state of every pool may change (pools are shared)
+        for f in ENV_FIELDS:
+            ctx.heap[f] = fresh("H_%s" % f, ctx.field_array(f).sort())
+        ctx.ghost["nondet"] = True
         now = ctx.ghost.get("now", z3.RealVal(0))
         ctx.ghost["now"] = now + Z.rval(sv.t)
         if ctx.choose(2, "trio.sleep-outcome") == 1:
